@@ -17,7 +17,10 @@ type Analysis struct {
 	inprog   map[*ssa.Function]bool
 	Mode     int             // inlining view: 0 none, 1 helpers not in the baseline, 2 every same-package function
 	Baseline map[string]bool // function names the rules were written against
-	recMemo  map[*ssa.Function]bool
+	// NormPanics: path summaries leave out explicit panics that only spell out a runtime panic the continuation would
+	// raise anyway under the same condition (normalisePanicGuards); used as a further view, like the inlining modes
+	NormPanics bool
+	recMemo    map[*ssa.Function]bool
 	// DistinctParams: while summarising this function, stores through one pointer parameter do not invalidate what
 	// is known about the same field of another pointer parameter (set only after every call site has been shown to
 	// pass distinct objects)
